@@ -128,6 +128,19 @@ Fixpoint nodupb (l : list nat) : bool :=
 Definition slot_shape_ok (ix : list nat) : bool :=
   nodupb ix || (nodupb (removelast ix) && existsb (Nat.eqb (last ix 0)) (removelast ix) && negb (length ix =? 0)).
 
+(* ---- incidence matrices (mesh.py p2f / p2t / p2e / e2t), dense, rows as NumPy stores them.
+   coo_matrix sums duplicate triplets, so p2t / p2e count occurrences; p2f then sets every stored entry to 1 *)
+Definition count_in (v : nat) (c : list nat) : nat := length (filter (Nat.eqb v) c).
+Definition incidence_count (ents : list (list nat)) (nv : nat) : list (list nat) :=
+  map (fun c => map (fun v => count_in v c) (seq 0 nv)) ents.
+Definition incidence_01 (ents : list (list nat)) (nv : nat) : list (list nat) :=
+  map (fun c => map (fun v => if 0 <? count_in v c then 1 else 0) (seq 0 nv)) ents.
+(* e2t = p2t[:, edges[0]].multiply(p2t[:, edges[1]]) : (cells x edges) *)
+Definition e2t_matrix (cells edges : list (list nat)) : list (list nat) :=
+  map (fun c => map (fun g => count_in (nth 0 g 0) c * count_in (nth 1 g 0) c) edges) cells.
+(* Mesh.nvertices = np.max(t) + 1 : the nodes of a mesh are its vertices, also when it has more points (second order) *)
+Definition nvertices (cells : list (list nat)) : nat := S (list_max (concat cells)).
+
 (* the whole family of tables of one mesh, as the correspondence compares them:
    facet_idx / edge_idx : refdom tables; bnd_idx : facets of the boundary refdom (for f2e); sortf : the sort flag *)
 Record tables := {
